@@ -142,15 +142,23 @@ func iHalf(n int, x float64, neg bool) float64 {
 		p, q = q, p
 	}
 	for k := 0; k < n; k++ {
-		var nx float64
-		if neg {
-			nx = q + float64(2*k+1)/x*p
-		} else {
-			nx = q - float64(2*k+1)/x*p
-		}
-		p, q = nx, p
+		p, q = q-float64(2*k+1)/x*p, p
 	}
 	return p
+}
+
+// ln I_{+-(n+1/2)}(x) for large x (recurrence scaled by e^-x)
+func iHalfLog(n int, x float64, neg bool) float64 {
+	c := math.Sqrt(2 / (math.Pi * x))
+	em := math.Exp(-2 * x)
+	p, q := c*(1-em)/2, c*(1+em)/2
+	if neg {
+		p, q = q, p
+	}
+	for k := 0; k < n; k++ {
+		p, q = q-float64(2*k+1)/x*p, p
+	}
+	return x + math.Log(p)
 }
 
 // ---------------------------------------------------------------- branch labels (from reading gamma.go / bessel.go)
@@ -297,7 +305,7 @@ func intTac(prec int) string {
 	if prec > 400 {
 		prec = 400
 	}
-	return fmt.Sprintf("unf; integral with (i_prec %d, i_relwidth %d)", prec, prec-25)
+	return fmt.Sprintf("unf; integral with (i_prec %d, i_relwidth %d)", prec, prec-28)
 }
 
 // extra precision for a result `ref` obtained by cancellation from terms of size `big`
@@ -316,7 +324,13 @@ func nat(n int) string { return fmt.Sprintf("%d%%nat", n) }
 
 // incomplete gamma family
 func (b *builder) igamma(rng *Rng) {
-	hs := []int{1, 2, 3, 4, 5, 7, 10, 11, 20, 21, 39, 42, 45, 58, 59, 60, 61, 80, 121, 140, 240, 339, 340, 341, 401, 420, 500}
+	// a = h/2 up to 60.5: beyond that the closed forms (sums of a terms) cost Coq-Interval minutes per
+	// anchor; the branches that need larger a (non-normalised a >= 170, Temme with a > 200) are NOT
+	// reached by certified anchors and are reported as uncovered (the sweep exercises them).
+	hs := []int{1, 2, 3, 4, 5, 6, 7, 10, 11, 20, 21, 39, 42, 45, 58, 59, 60, 61, 80, 100, 121}
+	if b.quick {
+		hs = []int{1, 2, 3, 4, 5, 6, 7, 10, 11, 20, 21, 42, 45, 58, 59, 60, 61, 80, 100}
+	}
 	base := []float64{1e-17, 0.01, 0.1, 0.19, 0.21, 0.3, 0.45, 0.55, 0.59, 0.61, 0.75, 1.0, 1.09, 1.11, 1.5, 2.3, 5, 7.5, 12, 20, 29, 31, 50, 100, 300, 700, 720}
 	rel := []float64{0.2, 0.5, 0.7, 0.9, 0.97, 1.0, 1.03, 1.1, 1.3, 1.5, 2, 4.5}
 	type cand struct {
@@ -363,8 +377,22 @@ func (b *builder) igamma(rng *Rng) {
 		}
 		groups[k] = append(groups[k], c)
 	}
+	// witnesses of repaired defects are always anchored (corpus/C13)
+	for _, pc := range []struct {
+		fn         string
+		h          int
+		x          float64
+		norm, invt bool
+	}{{"GammaQ", 10, 2.3, true, true}, {"GammaUpper", 10, 2.3, false, true}, {"GammaP", 80, 35, true, false},
+		{"GammaP", 10, 1e-17, true, false}, {"GammaLower", 10, 1e-17, false, false}, {"GammaQ", 1, 0.1, true, true}} {
+		groups["pinned"] = append(groups["pinned"], cand{pc.h, pc.x, pc.fn, pc.norm, pc.invt, gammaMethod(float64(pc.h)/2, pc.x, pc.norm, pc.invt)})
+	}
+	order = append(order, "pinned")
 	for _, k := range order {
 		g := groups[k]
+		if k == "pinned" {
+			per = len(g)
+		}
 		stride := 1
 		if len(g) > per {
 			stride = len(g) / per
@@ -402,10 +430,12 @@ func (b *builder) igamma(rng *Rng) {
 			switch {
 			case !finite(ref) || math.Abs(ref) > 1e300:
 				an.Skip = "closed form overflows binary64 (overflow is the specified outcome; checked by the sweep)"
-			case pq < 1e-120:
-				an.Skip = "value below 1e-120: closed form needs > 400 bits of cancellation"
 			case an.tol < 1e-320:
 				an.Skip = "tolerance underflows"
+			case c.h%2 == 1 && pq < 1e-7:
+				an.Skip = "half-integer a with P or Q below 1e-7: the erf integral cannot be certified to the needed relative accuracy in bounded time"
+			case c.h%2 == 0 && (pq < 1e-100 || (pq < 1e-60 && c.h > 24)):
+				an.Skip = "tiny value: closed form 1 - Q needs several hundred bits of cancellation"
 			}
 			prec := 90 + extraBits(1, pq) + c.h/8
 			if c.h%2 == 0 {
@@ -418,7 +448,7 @@ func (b *builder) igamma(rng *Rng) {
 		}
 	}
 	// derivatives of P
-	for _, h := range []int{1, 2, 3, 5, 8, 20, 21, 60, 61, 200, 401} {
+	for _, h := range []int{1, 2, 3, 5, 8, 20, 21, 60, 61, 120} {
 		a := float64(h) / 2
 		for _, x := range []float64{0.01, 0.5, 1, 3, math.Round(a*32) / 32, 2 * a, 50, 700} {
 			d1 := dPH(h, x)
@@ -532,6 +562,56 @@ func (b *builder) polygammas() {
 	}
 }
 
+// Polygamma(n, x), n >= 2: differences that need no zeta value:
+//   psi_n(m+1)   -               psi_n(1) = (-1)^n n! sum_{k=1..m} 1/k^(n+1)
+//   psi_n(m+1/2) - (2^(n+1)-1) * psi_n(1) = (-1)^n n! sum_{k<m} 2^(n+1)/(2k+1)^(n+1)
+func (b *builder) polygammaN() {
+	ns := []int{2, 3, 4, 6}
+	ms := []int{1, 2, 5, 12, 17, 29, 60, 150}
+	if b.quick {
+		ns = []int{2, 3, 5}
+		ms = []int{1, 5, 17, 29, 150}
+	}
+	for _, n := range ns {
+		p1 := sp.Polygamma(n, 1)
+		sgn := 1.0
+		if n%2 == 1 {
+			sgn = -1
+		}
+		for _, m := range ms {
+			for _, half := range []bool{false, true} {
+				x := float64(m + 1)
+				ref, mult := 0.0, 1.0
+				closed := fmt.Sprintf("polyg_int_diff %s %s", nat(n), nat(m))
+				if half {
+					x = float64(m) + 0.5
+					mult = math.Pow(2, float64(n+1)) - 1
+					closed = fmt.Sprintf("polyg_half_diff %s %s", nat(n), nat(m))
+					for k := m - 1; k >= 0; k-- {
+						ref += math.Pow(2/float64(2*k+1), float64(n+1))
+					}
+				} else {
+					for k := m; k >= 1; k-- {
+						ref += math.Pow(float64(k), -float64(n+1))
+					}
+				}
+				ref *= sgn * fact(n)
+				obs := sp.Polygamma(n, x)
+				lab := "transition"
+				if x > 0.4*15+4*float64(n) {
+					lab = "asymptotic"
+				}
+				an := &Anchor{Fam: "polygamma", Label: lab, Fn: "Polygamma", H: int(2 * x), K: n, x: x, obs: obs, ref: ref, X2: fhex(p1),
+					Desc: fmt.Sprintf("Polygamma(%d, %v) - %v*Polygamma(%d, 1)", n, x, mult, n)}
+				an.tol = 64 * ulp * mult * math.Abs(p1)
+				an.tac = ivTac(100)
+				an.goal = fmt.Sprintf("Rabs (%s - (%s - %s * %s)) <= %s", closed, R(obs), R(mult), R(p1), R(an.tol))
+				b.add(an)
+			}
+		}
+	}
+}
+
 func (b *builder) bessel() {
 	ns := []int{0, 1, 2, 3, 5, 8, 12}
 	xs := []float64{0.01, 0.1, 0.3, 1, 1.9, 2, 2.1, 5, 20, 50, 99, 101, 300, 600, 700}
@@ -546,30 +626,53 @@ func (b *builder) bessel() {
 			name = "i_mhalf"
 		}
 		closed := fmt.Sprintf("%s %s %s", name, nat(n), R(x))
-		// size of the largest term of the recurrence (cancellation for small x)
+		// size of the largest term of the recurrence (cancellation for small x, positive order)
 		big := math.Sqrt(2/(math.Pi*x)) * math.Cosh(x)
 		for k := 0; k < n; k++ {
 			if f := float64(2*k+1) / x; f > 1 {
 				big *= f
 			}
 		}
-		prec := 90 + extraBits(big, ref)
-		if !finite(ref) || ref == 0 || prec > 800 {
-			// float64 closed form lost everything; use the series value for the tolerance scale
-			ref = math.Pow(x/2, v) / math.Gamma(v+1)
-			prec = 90 + int(float64(n)*math.Max(0, math.Log2(float64(2*n+1)/x))) + 30
+		if !neg && x < 30 {
+			// power series: no cancellation
+			ref = 0
+			t := math.Pow(x/2, v) / math.Gamma(v+1)
+			for k := 1; k < 500; k++ {
+				ref += t
+				t *= x * x / 4 / float64(k) / (float64(k) + v)
+			}
 		}
-		if prec > 800 {
+		prec := 90 + extraBits(big, ref)
+		if prec > 170 {
+			return // closed form by recurrence loses > 170 bits here (small x, large order)
+		}
+		lref := math.Log(ref)
+		if x > 300 {
+			lref = iHalfLog(n, x, neg)
+		}
+		if logv && ref < 0 {
+			// I_v(x) < 0: the logarithm is undefined, NaN is the specified outcome
+			obs, p := safe(func() float64 { return sp.LogBesselI(v, x) })
+			an := &Anchor{Fam: "logbessel", Label: besselLabel(v, x) + ":negative", Fn: "LogBesselI", H: int(2 * v), K: n, x: x, obs: obs, ref: math.NaN(),
+				Desc: fmt.Sprintf("LogBesselI(%v, %v) of a negative value", v, x)}
+			if !p && math.IsNaN(obs) {
+				an.Skip = "log of a negative value: NaN specified and observed"
+				an.obs = 0
+				b.add(an)
+			} else {
+				b.add(an)
+				an.NonFin = true // a number where NaN is specified: reported as a failing anchor
+			}
 			return
 		}
 		if logv {
 			obs, p := safe(func() float64 { return sp.LogBesselI(v, x) })
-			an := &Anchor{Fam: "logbessel", Label: besselLabel(v, x), Fn: "LogBesselI", H: int(2 * v), K: n, x: x, obs: obs, ref: math.Log(ref),
+			an := &Anchor{Fam: "logbessel", Label: besselLabel(v, x), Fn: "LogBesselI", H: int(2 * v), K: n, x: x, obs: obs, ref: lref,
 				Desc: fmt.Sprintf("LogBesselI(%v, %v)", v, x)}
 			if p {
 				an.NonFin = true
 			}
-			an.tol = 64 * ulp * (1 + math.Abs(math.Log(ref)) + x/8)
+			an.tol = 64 * ulp * (1 + math.Abs(lref) + x/8)
 			an.tac = ivTac(prec)
 			an.goal = stdGoal("ln ("+closed+")", obs, an.tol)
 			b.add(an)
@@ -636,11 +739,11 @@ func (b *builder) logerfc() {
 		b.add(an)
 		an2 := &Anchor{Fam: "logerfc", Label: lab + ":vs-erfc", Fn: "LogErfc", x: x, obs: obs, ref: ref, Desc: fmt.Sprintf("LogErfc(%v) vs ln erfc (integral)", x)}
 		an2.tol = 64 * ulp * math.Abs(ref)
-		an2.tac = intTac(100)
+		an2.tac = intTac(84)
 		an2.goal = stdGoal("ln (erfcR "+R(x)+")", obs, an2.tol)
 		b.add(an2)
 	}
-	mid := []float64{x0p, -x0p, 0.16, 0.5, 1, 2, 3, -0.5, -1, -3, 4, 5}
+	mid := []float64{x0p, -x0p, 0.16, 0.5, 1, 2, 3, -0.5, -1, -3, 4}
 	for _, x := range mid {
 		obs := sp.LogErfc(x)
 		ref := math.Log(math.Erfc(x))
@@ -650,7 +753,7 @@ func (b *builder) logerfc() {
 		}
 		an := &Anchor{Fam: "logerfc", Label: lab, Fn: "LogErfc", x: x, obs: obs, ref: ref, Desc: fmt.Sprintf("LogErfc(%v) vs ln erfc (integral)", x)}
 		an.tol = 64 * ulp * math.Max(math.Abs(ref), 1e-3) * (1 + x*x)
-		an.tac = intTac(100 + extraBits(1, math.Erfc(x)))
+		an.tac = intTac(84 + extraBits(1, math.Erfc(x)))
 		an.goal = stdGoal("ln (erfcR "+R(x)+")", obs, an.tol)
 		b.add(an)
 	}
@@ -748,6 +851,7 @@ func buildAnchors(o Opts) []*Anchor {
 	rng := NewRng(o.Seed ^ 0xC13)
 	b.igamma(rng)
 	b.polygammas()
+	b.polygammaN()
 	b.bessel()
 	b.logerfc()
 	b.logarith(rng)
@@ -792,8 +896,12 @@ func writeAnchors(o Opts, as []*Anchor) {
 		var sb strings.Builder
 		sb.WriteString(anchorHeader)
 		for _, a := range goals[s:e] {
-			fmt.Fprintf(&sb, "(* %s  [%s]  ref %v *)\nGoal True. tryif (assert (H : %s) by (%s)) then idtac \"ANCHOR-OK %d\" else idtac \"ANCHOR-FAIL %d\". exact I. Qed.\n",
-				a.Desc, a.Label, a.ref, a.goal, a.tac, a.ID, a.ID)
+			tac := a.tac
+			if t := os.Getenv("C13_TAC_TIMEOUT"); t != "" {
+				tac = "timeout " + t + " (" + tac + ")"
+			}
+			fmt.Fprintf(&sb, "(* %s  [%s]  ref %v *)\nGoal True. Time tryif (assert (H : %s) by (%s)) then idtac \"ANCHOR-OK %d\" else idtac \"ANCHOR-FAIL %d\". exact I. Qed.\n",
+				a.Desc, a.Label, a.ref, a.goal, tac, a.ID, a.ID)
 		}
 		if err := os.WriteFile(filepath.Join(o.Out, fmt.Sprintf("anchors_%d.v", nsh)), []byte(sb.String()), 0644); err != nil {
 			Die("write: %v", err)
